@@ -117,13 +117,14 @@ type fakeCAS struct {
 	mu    sync.Mutex
 	blobs    map[string][]byte // key: casKeyOf(hash, size)
 	failing  map[string]bool
+	missing  map[string]bool // blobs the storage has lost (CAS miss)
 	injected int
 	gets     int
 	puts     int
 }
 
 func newFakeCAS() *fakeCAS {
-	return &fakeCAS{blobs: map[string][]byte{}, failing: map[string]bool{}}
+	return &fakeCAS{blobs: map[string][]byte{}, failing: map[string]bool{}, missing: map[string]bool{}}
 }
 
 func casKey(d digest.Digest) string { return casKeyOf(d.GetHashString(), d.GetSizeBytes()) }
@@ -138,7 +139,7 @@ func (c *fakeCAS) Get(ctx context.Context, d digest.Digest) buffer.Buffer {
 		return buffer.NewBufferFromError(status.Error(codes.Unavailable, "injected storage fault"))
 	}
 	b, ok := c.blobs[k]
-	if !ok {
+	if !ok || c.missing[k] {
 		return buffer.NewBufferFromError(status.Error(codes.NotFound, "blob not found"))
 	}
 	return buffer.NewCASBufferFromByteSlice(d, append([]byte(nil), b...), buffer.BackendProvided(buffer.Irreparable(d)))
